@@ -88,6 +88,11 @@ def run(res, tier, rng, table_diffs=()):
     cases.append(("equal-literals", 'stel a = "abc"; stel b = "abc"; a[0] = "x"; b'))
     cases.append(("equal-literals", 'stel i = 0; stel r = []; zolang i < 3 { i += 1; stel s = "ab"; s[0] = "x"; r = [r, s]; }; r'))
     cases.append(("equal-literals", 'functie f() { "lit" }; stel a = f(); a[0] = "X"; [a, f()]'))
+    # a constant shared in the pool is found by VALUE AND TYPE: an integer literal whose payload bits equal a function
+    # descriptor (entry << 16 | slots) of the same program, placed before/after/inside
+    from . import C15
+    for p in C15.collision_programs():
+        cases.append(("pool-collision", p))
     run_cases(res, "C10", cases)
     reqs = []
     for _, a, b in meta:
